@@ -2,7 +2,7 @@ SPECIFICATION MCSpec
 CHECK_DEADLOCK FALSE
 CONSTANTS
   MaxFaults = 2
-  Stride = 5
+  Stride = 7
   Pairs = 40
   Randoms = 60
   NBombs = 3
